@@ -118,3 +118,16 @@ def closure(pn, target):
                     sts.append(rules[b["rule"]])
             todo += b["inputs"] + b["order_only"]
     return [s["text"] for s in sorted(sts, key=lambda s: s["pos"])]
+
+
+def canon(path):
+    """a path as ninja canonicalizes it (CanonicalizePath): `.` components, empty components and `dir/..` pairs are dropped"""
+    parts = []
+    for part in path.split("/"):
+        if part in ("", "."):
+            continue
+        if part == ".." and parts and parts[-1] != "..":
+            parts.pop()
+        else:
+            parts.append(part)
+    return ("/" if path.startswith("/") else "") + "/".join(parts)
